@@ -168,7 +168,7 @@ Definition dmn_spec (args : list val) : val :=
             if v =? 17 then VS "false:C17" else if v =? 28 then VS "false:C11,C17" else if negb (v =? 0) then VS "false:C11"
             else
               let w := mwalk (minit nq maxq f) steps obs in
-              if w =? 0 then VS "true" else if w =? 5 then VS "false:C05" else if w =? 13 then VS "false:C13" else if w =? 15 then VS "false:C15" else VS "false:C14"
+              if w =? 0 then VS "true" else if w =? 5 then VS "false:C05" else if w =? 9 then VS "false:C09" else if w =? 13 then VS "false:C13" else if w =? 15 then VS "false:C15" else VS "false:C14"
           else VS "n/a"
       | _, _ => VS "n/a"
       end
